@@ -3,7 +3,7 @@ from __future__ import annotations
 
 ID = "C04"
 BOUNDS = {
-    "quick": "APDU length L = 0..24, every octet fully symbolic (2^(8L) inputs per length); per-path time budget 30 s",
+    "quick": "APDU length L = 0..40, every octet fully symbolic (2^(8L) inputs per length); per-path time budget 30 s",
     "thorough": "APDU length L = 0..255, every octet fully symbolic; per-path time budget 30 s",
 }
 OUTSIDE = "APDUs longer than the bound; behaviour of the callers of APCI.from_knx (C12/C18 cover those)."
@@ -19,7 +19,7 @@ REQUIRED_REACH = ["accepted", "ConversionError", "UnsupportedAPCIService"]
 
 
 def jobs(tier, seed):
-    top = 24 if tier == "quick" else 255
+    top = 40 if tier == "quick" else 255
     return [dict(name=f"L{L}", L=L, cost=L + 1) for L in range(0, top + 1)]
 
 
